@@ -594,7 +594,7 @@ func (h *c17Hist) run() error {
 		name string
 		w    int
 	}
-	ws := []wk{{"block", 10}, {"post", 9}, {"proof", 30}, {"delete", 3}, {"reqattest", 5}, {"attest", 9}, {"reqreport", 5}, {"report", 9}, {"shutdown", 2}, {"init", 2}, {"reward", 6}, {"rewardoff", 1}}
+	ws := []wk{{"block", 10}, {"post", 9}, {"proof", 30}, {"delete", 4}, {"reqattest", 5}, {"attest", 9}, {"reqreport", 5}, {"report", 9}, {"shutdown", 2}, {"init", 2}, {"reward", 6}, {"rewardoff", 1}}
 	if h.prop == "C01" {
 		ws = []wk{{"block", 10}, {"post", 7}, {"proof", 42}, {"delete", 1}, {"reqattest", 4}, {"attest", 7}, {"reqreport", 2}, {"report", 3}, {"shutdown", 1}, {"init", 1}, {"reward", 14}, {"rewardoff", 1}}
 	}
@@ -756,6 +756,8 @@ func (h *c17Hist) opDelete() error {
 		start++
 	case 2:
 		creator = h.spell(PickOne(p, h.provers))
+	case 3:
+		start = 0 // the field left at its zero value (a client that only knows merkle and owner)
 	}
 	msg := &storagetypes.MsgDeleteFile{Creator: creator, Merkle: merkle, Start: start}
 	pre := h.cur
